@@ -914,7 +914,7 @@ class Env:
                 rel(self.outq_times[0]) if self.outq_times else None)
 
     # --------------------------------------------------------------- settle
-    def settle(self, rounds=60):
+    def settle(self, rounds=140):
         """Deterministic closure: let everything that can still happen,
         happen (no new faults), then let the lost-worker timeouts pass."""
         idle_rounds = 0
@@ -960,13 +960,17 @@ class Env:
             if did:
                 idle_rounds = 0
                 continue
+            # nothing can move at this instant: let virtual time pass the way
+            # it does under a running supervisor -- one supervision period
+            # (0.8 s) per round, NOT a jump to the next deadline (a mark that
+            # is re-stamped on every round must not be able to hide)
+            pending = bool(self.unresolved()) or any(
+                w.alive and w.phase == 'quota' for w in self.workers.values())
             idle_rounds += 1
-            if idle_rounds > 3:
+            if not pending or idle_rounds > 55:
                 return
-            dl = self.deadlines()
-            self.world.now = (dl[-1] if dl else self.world.now) + \
-                (0.85 if not dl else EPS)
-            self.log.append(('settle-advance', self.world.now))
+            self.world.now += 0.8
+            self.log.append(('settle-advance', round(self.world.now, 3)))
 
     def unresolved(self):
         out = []
